@@ -89,6 +89,42 @@ func (x *runner) nodeEvents(name string, conn int) []Event {
 func (x *runner) scenarioSpecificChecks(stage string) {
 	s := x.s
 	cls := x.class()
+	// --- forbidden header delivered before its parent ---------------------------------
+	if x.w.ForbiddenOrphan != nil {
+		fh := x.w.ForbiddenOrphan.HashOf()
+		if t, err := snap.TakeHeaders(x.st.DB); err == nil {
+			if row, ok := t[fh.String()]; ok {
+				x.fail("forbidden-stored|parent-unknown|"+cls, "a forbidden header delivered before its parent is present in the headers table as "+row.State+" ("+stage+")")
+			}
+		}
+		if x.st.Engine != nil {
+			for _, p := range []string{"/api/v1/chain/header/", "/api/v1/chain/header/state/"} {
+				if w := x.st.HTTP("GET", p+fh.String(), nil, nil); w.Code != 404 {
+					x.fail("forbidden-served|parent-unknown|"+cls, fmt.Sprintf("GET %s<forbidden, parent unknown> -> %d", p, w.Code))
+				}
+			}
+		}
+		for i, ns := range s.Nodes {
+			if ns.Kind != "forbidden" || !ns.OrphanForbidden {
+				continue
+			}
+			n := x.nodes[i]
+			for _, c := range n.Conns() {
+				pushed := false
+				for _, e := range x.nodeEvents(n.Name, c.ID) {
+					if e.Dir == "out" && e.Cmd == "headers" && strings.HasPrefix(e.Info, "orphan-forbidden") {
+						pushed = true
+					}
+				}
+				if pushed {
+					x.count("orphan_forbidden_header_delivered", 1)
+					if x.stillConnected(c) {
+						x.fail("forbidden-sender-still-connected|parent-unknown|"+cls, fmt.Sprintf("node %s delivered a forbidden header (parent unknown) on connection %d and is still connected at quiescence", n.Name, c.ID))
+					}
+				}
+			}
+		}
+	}
 	// --- forbidden header ------------------------------------------------------
 	if x.w.Forbidden != nil {
 		fh := x.w.Forbidden.HashOf()
